@@ -73,14 +73,14 @@ func (w *world) keyDraws(s slot, cl string) (int, bool) {
 	}
 	src.load(nil)
 	qn, qt := s.query(w.zone)
-	w.h.Serve(query(qn, qt), clientIP[cl], false, 1)
+	probe := w.h.Serve(query(qn, qt), clientIP[cl], false, 1)
 	v := src.taken()
 	if w.nk == nil {
 		w.nk = map[cfgKey]int{}
 	}
 	w.nk[k] = v
 	aligned := v == len(w.drawRows(s, cl))
-	if !aligned && w.backend == dnsfix.CDB {
+	if !aligned && w.backend == dnsfix.CDB && probe.Panicked == nil {
 		vlib.Infra("the handler takes %d key draws where the reader enumerates %d rows (cdb set %s %s client=%q): the scripted source no longer addresses the draws as the code sees them\n%s", v, len(w.drawRows(s, cl)), setKey(w.set), s, cl, w.text)
 	}
 	return v, aligned
@@ -90,7 +90,7 @@ func (w *world) keyDraws(s slot, cl string) (int, bool) {
 // are taken, then shuffle draws) and judges the response against the statement.
 func serve(w *world, s slot, cl string, m int, keys, shuffle []uint32) observation {
 	nk, aligned := w.keyDraws(s, cl)
-	if len(keys) != nk {
+	if len(keys) != nk && aligned {
 		vlib.Infra("harness: %d key draws scripted for %d taken", len(keys), nk)
 	}
 	script := make([]uint32, 0, len(keys)+len(shuffle))
@@ -104,7 +104,7 @@ func serve(w *world, s slot, cl string, m int, keys, shuffle []uint32) observati
 	}
 	res := w.h.Serve(query(qn, qt), clientIP[cl], false, mm)
 	o := observation{Taken: src.taken()}
-	if aligned {
+	if aligned && res.Panicked == nil {
 		// the draws the code took must be the ones the script was written for: one key draw per row,
 		// then the shuffle of the kept items (at most one per row, each step taking one draw, or two
 		// when int31n rejects the first). How many items are kept is the code's business (and judged
